@@ -255,3 +255,121 @@ Example C02_bgp_reload_heard_example :
   E2eModel.bs_disc st = 1%N /\
   E2eModel.b_sess_of (E2eModel.b_step st (E2eModel.BOpen 0)) 0 = None /\ E2eModel.bs_accepted (E2eModel.b_step st (E2eModel.BOpen 0)) = 3%N.
 Proof. exact E2eProofs.bgp_reload_heard_example. Qed.
+
+From RV Require E2e.E2eBgpProofs.
+
+(* ---- the bgp-tcp-in unit in a running pipeline, continued (E2e/E2eBgpProofs.v): a load as an equation over ALL sessions, and
+   two invariants over ALL histories of b_step from start-up ---- *)
+
+(* A load of the file in ANY state (the new configuration c = the file: any bcfg), on the schedule the property needs
+   (every end heard: BReload nil). [ends k]: k is one of the unit's addresses, has a live session, and my_asn of c or the peer
+   entry of k in c is not what the session was accepted with (entry removed, or another entry).
+   - the sessions the load ends (b_ended) are exactly those;
+   - they are gone; EVERY other session is what it was: same settings, same ingress id, still live;
+   - the unit holds the file; accepted / lost counters and the register are what they were;
+   - `rib` reports every key under the id of an ended session (families 0..3) withdrawn with its attributes - one
+     Withdraw(id) per ended session - and EVERY key under no such id as before (frame). *)
+Theorem C02_bgp_reload_ends_exactly_changed_sessions : forall st,
+  let c := E2eModel.bs_file st in
+  let st' := E2eModel.b_step st (E2eModel.BReload nil) in
+  let ends k := E2eModel.is_bgp_addr k = true /\
+                exists sv, E2eModel.b_sess_of st k = Some sv /\
+                           (E2eModel.bc_asn c <> fst sv \/ E2eModel.b_peer_of c k <> Some (snd sv)) in
+  (forall k, In k (E2eModel.b_ended c (E2eModel.bs_sess st)) <-> ends k) /\
+  (forall k, ends k -> E2eModel.b_sess_of st' k = None /\ E2eModel.b_session_id st' k = None) /\
+  (forall k, ~ ends k -> E2eModel.b_sess_of st' k = E2eModel.b_sess_of st k /\
+                         E2eModel.b_session_id st' k = E2eModel.b_session_id st k) /\
+  (E2eModel.bs_cfg st' = c /\ E2eModel.bs_file st' = c /\ E2eModel.bs_accepted st' = E2eModel.bs_accepted st /\
+   E2eModel.bs_lost st' = E2eModel.bs_lost st /\
+   PipeModel.w_reg (E2eModel.b_world st') = PipeModel.w_reg (E2eModel.b_world st)) /\
+  (forall key, (exists k id, ends k /\ E2eModel.b_session_id st k = Some id /\ RibModel.k_mui key = id /\ (RibModel.k_fam key < 4)%N) ->
+               E2eModel.b_rib_lookup st' key = E2eModel.withdrawn_of (E2eModel.b_rib_lookup st key)) /\
+  (forall key, (forall k id, ends k -> E2eModel.b_session_id st k = Some id -> RibModel.k_mui key = id -> ~ (RibModel.k_fam key < 4)%N) ->
+               E2eModel.b_rib_lookup st' key = E2eModel.b_rib_lookup st key).
+Proof. exact E2eBgpProofs.bgp_reload_ends_exactly_changed_sessions. Qed.
+Print Assumptions C02_bgp_reload_ends_exactly_changed_sessions.
+
+(* ... and on ANY schedule of the race of known finding C02-bgp-reload-end-unheard ([unh]: the ended sessions whose Withdraw
+   meets the gate's new, still empty subscription table): the same sessions end and the same sessions go on untouched; but a
+   key under the id of an ended session that was not heard (and under the id of no ended session that was heard) is reported
+   as BEFORE the load - its routes are left behind, active if they were active, under an ingress id no session has any more;
+   if no ended session is heard the store of `rib` is what it was altogether. The property's reading (es_s: those routes
+   withdrawn) is the one of the heard schedule, whatever [unh]. *)
+Theorem C02_bgp_reload_unheard_leaves_routes_behind : forall st unh,
+  let c := E2eModel.bs_file st in
+  let st' := E2eModel.b_step st (E2eModel.BReload unh) in
+  let ends k := E2eModel.is_bgp_addr k = true /\
+                exists sv, E2eModel.b_sess_of st k = Some sv /\
+                           (E2eModel.bc_asn c <> fst sv \/ E2eModel.b_peer_of c k <> Some (snd sv)) in
+  (forall k, ends k -> E2eModel.b_sess_of st' k = None /\ E2eModel.b_session_id st' k = None) /\
+  (forall k, ~ ends k -> E2eModel.b_sess_of st' k = E2eModel.b_sess_of st k /\
+                         E2eModel.b_session_id st' k = E2eModel.b_session_id st k) /\
+  (forall k id key, ends k -> In k unh -> E2eModel.b_session_id st k = Some id -> RibModel.k_mui key = id ->
+     (forall j, ends j -> ~ In j unh -> E2eModel.b_session_id st j <> Some id) ->
+     E2eModel.b_rib_lookup st' key = E2eModel.b_rib_lookup st key) /\
+  (forall key, (forall k, ends k -> In k unh) -> E2eModel.b_rib_lookup st' key = E2eModel.b_rib_lookup st key) /\
+  E2eModel.es_s (E2eModel.bs_e st') = E2eModel.es_s (E2eModel.bs_e (E2eModel.b_step st (E2eModel.BReload nil))).
+Proof. exact E2eBgpProofs.bgp_reload_unheard_leaves_routes_behind. Qed.
+Print Assumptions C02_bgp_reload_unheard_leaves_routes_behind.
+
+(* ALL histories of traffic, edits, connections and loads (any schedule) from start-up: the unit holds the configuration of the
+   latest load ([b_loaded]: read off the operations alone); every live session is a session of one of the unit's addresses and
+   the settings recorded for it (what a load compares the new file with, Processor.unit_cfg) are my_asn and its peer entry of
+   THAT configuration; so a load of the configuration in force ends nobody. *)
+Theorem C02_bgp_live_sessions_have_current_settings : forall s0 n0 h,
+  let st := E2eModel.b_run (E2eModel.b_init s0 n0) h in
+  let c := E2eModel.b_loaded E2eModel.bcfg_init E2eModel.bcfg_init h in
+  E2eModel.bs_cfg st = c /\
+  (forall k sv, E2eModel.b_sess_of st k = Some sv ->
+     E2eModel.is_bgp_addr k = true /\ fst sv = E2eModel.bc_asn c /\ E2eModel.b_peer_of c k = Some (snd sv)) /\
+  (forall k, ~ In k (E2eModel.b_ended c (E2eModel.bs_sess st))).
+Proof. exact E2eBgpProofs.bgp_live_sessions_have_current_settings. Qed.
+Print Assumptions C02_bgp_live_sessions_have_current_settings.
+
+(* ALL histories from start-up that are shorter than 2^32 - 2 operations (an operation takes at most one id from the
+   register, whose counter is a u32): no two live sessions have one ingress id; every live session's id is below the id the
+   register hands out next (the proviso of C02_bgp_accepted_connection_has_fresh_id, now a theorem); and - when BGP sessions are
+   opened and closed through the unit, [bop_plain]: no WBgpOpen / WBgpClose handed to the pipeline model directly - an address
+   has a live session exactly when it has an ingress id. *)
+Theorem C02_bgp_live_sessions_have_ids_of_their_own : forall s0 n0 h,
+  (N.of_nat (length h) < IngressModel.two32 - 2)%N ->
+  let st := E2eModel.b_run (E2eModel.b_init s0 n0) h in
+  (forall j k id, E2eModel.b_session_id st j = Some id -> E2eModel.b_session_id st k = Some id -> j = k) /\
+  (forall k id, E2eModel.b_session_id st k = Some id -> (id < IngressModel.serial (PipeModel.w_reg (E2eModel.b_world st)))%N) /\
+  (forallb E2eBgpProofs.bop_plain h = true ->
+   forall k, E2eModel.b_sess_of st k = None <-> E2eModel.b_session_id st k = None).
+Proof. exact E2eBgpProofs.bgp_live_sessions_have_ids_of_their_own. Qed.
+Print Assumptions C02_bgp_live_sessions_have_ids_of_their_own.
+
+(* ... hence, after such a history, without a proviso on the state: an accepted connection gets an id no live session has *)
+Theorem C02_bgp_accepted_connection_has_fresh_id_all_histories : forall s0 n0 h k v,
+  (N.of_nat (length h) < IngressModel.two32 - 2)%N ->
+  let st := E2eModel.b_run (E2eModel.b_init s0 n0) h in
+  E2eModel.is_bgp_addr k = true -> E2eModel.b_sess_of st k = None -> E2eModel.b_peer_of (E2eModel.bs_cfg st) k = Some v ->
+  let st' := E2eModel.b_step st (E2eModel.BOpen k) in
+  E2eModel.b_session_id st' k = Some (IngressModel.serial (PipeModel.w_reg (E2eModel.b_world st))) /\
+  (forall j id, j <> k -> E2eModel.b_session_id st j = Some id ->
+                E2eModel.b_session_id st' j = Some id /\ E2eModel.b_session_id st' j <> E2eModel.b_session_id st' k).
+Proof. exact E2eBgpProofs.bgp_accepted_connection_has_fresh_id_all_histories. Qed.
+Print Assumptions C02_bgp_accepted_connection_has_fresh_id_all_histories.
+
+(* The bound on the length cannot be dropped (the model has the u32 of the code, C14_wrap_refuted): address 0 opens a session
+   (id 2); address 1 connects and leaves 2^32 - 1 times ([b_wrap_hist]); its next connection is accepted with ingress id 2 -
+   the id of the session of address 0, which is still live. No engine can run this history; it is a statement about the model. *)
+Theorem C02_bgp_session_ids_wrap_refuted :
+  let st := E2eModel.b_run (E2eModel.b_init E2eModel.SNone 0) E2eBgpProofs.b_wrap_hist in
+  let st' := E2eModel.b_step st (E2eModel.BOpen 1) in
+  E2eModel.b_sess_of st' 0%N <> None /\ E2eModel.b_sess_of st' 1%N <> None /\
+  E2eModel.b_session_id st' 0%N = Some 2%N /\ E2eModel.b_session_id st' 1%N = Some 2%N.
+Proof. exact E2eBgpProofs.bgp_session_ids_wrap_refuted. Qed.
+Print Assumptions C02_bgp_session_ids_wrap_refuted.
+
+(* non-vacuity: two sessions; the entry of address 0 is rewritten and the file loaded (its session ends, the other goes on);
+   address 0 comes back: accepted with the new entry and a new id; address 3 has no entry: counted and refused *)
+Example C02_bgp_invariants_example :
+  let st := E2eModel.b_run (E2eModel.b_init E2eModel.SNone 0) E2eBgpProofs.b_inv_example in
+  E2eModel.b_live st = (0%N :: 1%N :: nil) /\ E2eModel.b_sess_of st 0%N = Some (0%N, 2%N) /\ E2eModel.b_sess_of st 1%N = Some (0%N, 1%N) /\
+  E2eModel.b_session_id st 0%N = Some 4%N /\ E2eModel.b_session_id st 1%N = Some 3%N /\
+  E2eModel.b_peer_of (E2eModel.b_loaded E2eModel.bcfg_init E2eModel.bcfg_init E2eBgpProofs.b_inv_example) 0%N = Some 2%N /\
+  E2eModel.bs_accepted st = 4%N /\ forallb E2eBgpProofs.bop_plain E2eBgpProofs.b_inv_example = true.
+Proof. exact E2eBgpProofs.bgp_invariants_example. Qed.
